@@ -394,6 +394,12 @@ def do_check(prop, tier, replay, shards_override, budget_override, keep):
         wall = time.time() - t0
         if not replay:
             write_evidence(prop, ccfg, tier, seed, m, wall, len(new), extra)
+        else:
+            for lf in sorted(glob.glob(os.path.join(rundir, "part*-replay", "worker-*.log"))):
+                with open(lf, errors="replace") as f:
+                    for line in f:
+                        if line.startswith("REPLAY-") or line.startswith("  "):
+                            sys.stdout.write(line)
         for v, k in knownhits:
             print("KNOWN-FINDING: property=%s %s [%s]" % (prop, k.get("what", ""), v["fingerprint"]))
         for v in flaky:
@@ -462,6 +468,8 @@ def main():
         return
     if not a.prop:
         ap.error("property id required")
+    if a.replay:
+        a.replay = os.path.abspath(a.replay)
     sys.exit(do_check(a.prop, a.tier, a.replay, a.shards, a.budget, a.keep))
 
 
